@@ -53,6 +53,9 @@ class Sandbox:
         w("queries.graphql", QUERIES)
         w("bad_syntax.graphql", "type Query { a: Int ")
         w("empty.graphql", "")
+        w("pyvc_cfg_plugins.py", "import graphql\nfrom ariadne_codegen.plugins.base import Plugin\n\n\nclass BreakSchema(Plugin):\n"
+                                 "    def process_schema(self, schema):\n"
+                                 "        return graphql.GraphQLSchema(query=graphql.GraphQLObjectType('Query', {}))\n")
         w("blank.graphql", "  \n\t\n")
         w("schema_dir_with_empty/a.graphql", SCHEMA)
         w("schema_dir_with_empty/b_empty.graphql", "\n")
@@ -174,6 +177,9 @@ def _violations(sb):
         ("empty-file-in-schema-directory", "client", C(schema_path=sb.p("schema_dir_with_empty")), (EX.InvalidGraphqlSyntax,)),
         ("empty-file-in-schema-directory:graphqlschema", "schema", S(schema_path=sb.p("schema_dir_with_empty")), (EX.InvalidGraphqlSyntax,)),
         ("blank-file-in-queries-directory", "client", C(queries_path=sb.p("queries_dir_with_empty")), (EX.InvalidGraphqlSyntax,)),
+        # the schema that is generated from is the one the plugins hand back: it is checked, too
+        ("invalid-schema-from-a-plugin", "client", C(plugins=["pyvc_cfg_plugins.BreakSchema"], queries_path=sb.p("typename_query.graphql")), (CODEGEN,)),
+        ("invalid-schema-from-a-plugin:graphqlschema", "schema", S(plugins=["pyvc_cfg_plugins.BreakSchema"]), (CODEGEN,)),
         # the same failures with a target file that does not exist yet in the existing directory (no file may appear)
         ("schema-strategy-syntax:fresh-target", "schema", S(schema_path=sb.p("bad_syntax.graphql"), target_file_path=sb.p("schema_out/fresh_schema.py")), (EX.InvalidGraphqlSyntax,)),
         ("schema-strategy-syntax:fresh-graphql-target", "schema", S(schema_path=sb.p("bad_syntax.graphql"), target_file_path=sb.p("schema_out/fresh_schema.graphql")), (EX.InvalidGraphqlSyntax,)),
@@ -203,6 +209,12 @@ def _violations(sb):
 
 def _run(strategy, cfg):
     from ariadne_codegen.main import client, graphql_schema
+    import sys
+    for pl in cfg.get("plugins") or ():
+        root = os.path.dirname(cfg.get("schema_path") or "")
+        if pl.startswith("pyvc_cfg_plugins") and root and root not in sys.path:
+            sys.path.insert(0, root)
+            sys.modules.pop("pyvc_cfg_plugins", None)
     config = {"tool": {"ariadne-codegen": cfg}}
     before = copy.deepcopy(config)
     exc = None
